@@ -25,7 +25,8 @@ ASSUMPTIONS = [
     'through expm; library models: hand-coded documented equations integrated with DOP853 at rtol 1e-12',
     "myokit's SBML importer naming convention (c.s_amount, c.size, global.p)"]
 REQUIRED = ['gen', 'lib:pk', 'lib:koch', 'lib:koch_r', 'lib:erlotinib', 'sens', 'reduced', 'renamed', 'tied_times',
-            'intermediate_output', 'order_differs', 'model_order_differs', 'derived_const', 'refix', 'refix:same_count']
+            'intermediate_output', 'order_differs', 'model_order_differs', 'derived_const', 'refix', 'refix:same_count',
+            'admin:indirect', 'rename_then_admin']
 LIBS = ['pk', 'koch', 'koch_r', 'erlotinib']
 
 
@@ -52,7 +53,13 @@ def _spec(draw):
         theta = gen.distinct(draw(gen.vec(gen.logu(0.2, 3.0), n)))
         return dict(src='lib', lib=lib, theta=theta, times=times, tied=tied, sens=sens)
     ms = sbmlgen.draw_model(draw)
-    names = sbmlgen.published_parameters(ms)
+    admin = None
+    if gen.chance(draw, 0.3):
+        # PKPD flavour: a route of administration (no doses scheduled); the indirect route adds a depot state and
+        # an absorption rate in the middle of the published parameter order
+        admin = dict(comp=draw(st.integers(0, len(ms['comps']) - 1)), direct=gen.chance(draw, 0.4),
+                     rename_first=draw(st.booleans()))
+    names = sbmlgen.published_parameters(ms, admin)
     theta = gen.distinct(draw(gen.vec(gen.logu(0.1, 3.0), len(names))))
     cands = sbmlgen.state_qnames(ms) + sbmlgen.intermediate_qnames(ms)
     outputs = None
@@ -64,8 +71,9 @@ def _spec(draw):
         idx = draw(gen.subset(len(names), min_size=1, max_size=len(names) - 1))
         fixed = {str(i): theta[i] for i in idx}
     rename = None
-    if gen.chance(draw, 0.25):
-        rename = dict(params=sorted(draw(gen.subset(len(names), min_size=1))),
+    if gen.chance(draw, 0.4 if admin else 0.25):
+        n_ren = len(sbmlgen.published_parameters(ms)) if (admin and admin['rename_first']) else len(names)
+        rename = dict(params=sorted(draw(gen.subset(n_ren, min_size=1))),
                       outputs=draw(st.booleans()))
     refix = None
     if fixed is not None and gen.chance(draw, 0.6):
@@ -79,8 +87,10 @@ def _spec(draw):
             rel, add = [draw(st.sampled_from(fx))], [draw(st.sampled_from(fr))]         # plain swap
         if len(fx) - len(rel) + len(add) < len(names) and (rel or add):
             refix = dict(release=rel, fix=add)
+    if admin is not None and outputs is None:
+        outputs = sorted(cands)
     return dict(src='gen', ms=ms, theta=theta, times=times, tied=tied, sens=sens, outputs=outputs,
-                fixed=fixed, rename=rename, refix=refix)
+                fixed=fixed, rename=rename, refix=refix, admin=admin)
 
 
 def strategy(tier):
@@ -100,6 +110,10 @@ def classify(spec):
             labs.append('renamed')
         if spec.get('refix'):
             labs.append('refix')
+        if spec.get('admin'):
+            labs.append('admin:' + ('direct' if spec['admin']['direct'] else 'indirect'))
+            if spec['rename'] and spec['admin']['rename_first']:
+                labs.append('rename_then_admin')
         if ms['derived']:
             labs.append('derived_const')
         if spec['outputs'] and any(o in sbmlgen.intermediate_qnames(ms) for o in spec['outputs']):
@@ -126,7 +140,7 @@ def structure(spec):
     if spec['src'] == 'lib':
         return ['lib', spec['lib'], spec['sens'], len(spec['times']), spec['tied']]
     return ['gen', sbmlgen.structure(spec['ms']), spec['outputs'], spec['sens'],
-            sorted(spec['fixed']) if spec['fixed'] else None, spec['rename'], spec['tied'], spec.get('refix')]
+            sorted(spec['fixed']) if spec['fixed'] else None, spec['rename'], spec['tied'], spec.get('refix'), spec.get('admin')]
 
 
 # ---- library models: documented equations, hand-coded --------------------------------------
@@ -234,8 +248,9 @@ def check(case):
         return
 
     ms = s['ms']
+    admin = s.get('admin')
     with case.clause('construct'):
-        M = sbmlgen.build(ms)
+        M = sbmlgen.build(ms, chi.PKPDModel) if admin else sbmlgen.build(ms)
         mo = sbmlgen.model_state_order(ms)
         if mo != sorted(mo):
             case.labels.append('model_order_differs')
@@ -243,12 +258,27 @@ def check(case):
         return
     names = sbmlgen.published_parameters(ms)
     sq = sbmlgen.state_qnames(ms)
+    pmap_first = {}
 
     with case.clause('names'):
         case.equal(M.parameters(), names, 'published parameters: states alphabetically, then constants alphabetically')
         case.equal(M.n_parameters(), len(names), 'n_parameters')
         case.equal(M.outputs(), sorted(sq), 'default outputs')
         case.equal(M.n_outputs(), len(sq), 'default n_outputs')
+
+    if admin:
+        with case.clause('administration'):
+            if s['rename'] and admin['rename_first']:
+                pmap_first = {names[i]: 'P%d' % i for i in s['rename']['params']}
+                M.set_parameter_names(pmap_first)
+            comp = ms['comps'][admin['comp']]
+            M.set_administration(comp['id'], amount_var='%s_amount' % comp['sid'], direct=admin['direct'])
+            names = sbmlgen.published_parameters(ms, admin)
+            case.equal(M.parameters(), [pmap_first.get(n, n) for n in names],
+                       'published parameters after set_administration (names assigned before are kept)')
+            case.equal(M.n_parameters(), len(names), 'n_parameters after set_administration')
+        if 'administration' not in case.checked:
+            return
 
     outputs = s['outputs'] if s['outputs'] is not None else sorted(sq)
     if s['outputs'] is not None:
@@ -259,13 +289,14 @@ def check(case):
         if 'set_outputs' not in case.checked:
             return
 
-    pub_names = list(names)
+    pub_names = [pmap_first.get(n, n) for n in names]
     pub_out = list(outputs)
     if s['rename']:
         with case.clause('rename'):
-            pmap = {names[i]: 'P%d' % i for i in s['rename']['params']}
-            M.set_parameter_names(pmap)
-            pub_names = [pmap.get(n, n) for n in names]
+            if not pmap_first:
+                pmap = {names[i]: 'P%d' % i for i in s['rename']['params']}
+                M.set_parameter_names(pmap)
+                pub_names = [pmap.get(n, n) for n in names]
             case.equal(M.parameters(), pub_names, 'parameter names after renaming keep their positions')
             if s['rename']['outputs']:
                 omap = {outputs[0]: 'O_first'}
@@ -293,7 +324,7 @@ def check(case):
             z[i] = z_free[k]
         return z
 
-    want = np.real(sbmlgen.ref_simulate(ms, theta, times, outputs))
+    want = np.real(sbmlgen.ref_simulate(ms, theta, times, outputs, admin))
     with case.clause('simulate'):
         got = np.asarray(obj.simulate(theta[free].copy(), times.copy()), dtype=float)
         case.equal(got.shape, (len(outputs), len(times)), 'output shape', kind='shape')
@@ -307,7 +338,7 @@ def check(case):
             sens = np.asarray(sens, dtype=float)
             case.equal(sens.shape, (len(times), len(outputs), len(free)), 'sensitivity shape', kind='shape')
             case.close(out, want, rtol=1e-6, atol=1e-9, what='outputs returned with sensitivities')
-            ws = _cgrad_outputs(lambda z: sbmlgen.ref_simulate(ms, full(z), times, outputs), theta[free])
+            ws = _cgrad_outputs(lambda z: sbmlgen.ref_simulate(ms, full(z), times, outputs, admin), theta[free])
             case.close(sens, ws, rtol=1e-5, atol=1e-8,
                        what='d output / d (free) parameter, columns in published order')
             if not s.get('refix'):
@@ -335,7 +366,7 @@ def check(case):
                 sens = np.asarray(sens, dtype=float)
                 case.equal(sens.shape, (len(times), len(outputs), len(free)), 'sensitivity shape after the second '
                                                                              'fix_parameters call', kind='shape')
-                ws = _cgrad_outputs(lambda z: sbmlgen.ref_simulate(ms, full(z), times, outputs), theta[free])
+                ws = _cgrad_outputs(lambda z: sbmlgen.ref_simulate(ms, full(z), times, outputs, admin), theta[free])
                 case.close(sens, ws, rtol=1e-5, atol=1e-8, what='d output / d (free) parameter after releasing %s '
                            'and fixing %s in one call' % ([pub_names[i] for i in rf['release']],
                                                           [pub_names[i] for i in rf['fix']]))
@@ -343,3 +374,16 @@ def check(case):
                 out = res
             case.close(np.asarray(out, dtype=float), want, rtol=1e-6, atol=1e-9,
                        what='outputs after the second fix_parameters call')
+
+    # a copy taken after the model was simulated behaves like the model (same vector, and another one)
+    with case.clause('copy_after_simulate'):
+        cp = obj.copy()
+        for f in (1.0, 1.1):
+            th = theta.copy() * f
+            res = cp.simulate(th[free].copy(), times.copy())
+            out = res[0] if isinstance(res, tuple) else res
+            ref_th = theta.copy()
+            ref_th[free] = th[free]
+            case.close(np.asarray(out, dtype=float),
+                       np.real(sbmlgen.ref_simulate(ms, ref_th, times, outputs, admin)), rtol=1e-6, atol=1e-9,
+                       what='outputs of a copy taken after simulating (parameters x %.1f)' % f)
